@@ -637,6 +637,7 @@ def run(ctx):
     ctx.floor("field.validated.judged", 1000)
     n = ctx.pick(2400, 120000)
     fmt_cache = {}
+    history = {}
     for i in range(n):
         if not ctx.mine(i):
             continue
@@ -654,6 +655,17 @@ def run(ctx):
         if field is None:
             continue
         feed(field, cells, mon, flags)
+        # cross-field replay: cells that earlier fields of the same type saw are offered to this declaration too, so that
+        # anything remembered by cell text across instances (caches, class-level state) meets a declaration that
+        # disagrees with the one that filled it
+        seen = history.setdefault((type_name, kind == "fixed"), [])
+        if seen:
+            replayed = [c for c in rng.sample(seen, min(len(seen), 12)) if kind != "fixed" or (c.strip(" ") == c and c != "")]
+            feed(field, replayed, mon, [True] * len(replayed))
+            ctx.count("cross-field.replayed-cells", len(replayed))
+        seen.extend(rng.sample(cells, min(len(cells), 6)))
+        if len(seen) > 120:
+            del seen[:60]
         if kind == "delimited" and i % 5 == 0 and not (rule != rule.strip() and type_name in ("RegEx", "Pattern", "DateTime")):
             # (the CID loader strips the rule cell: surrounding blanks would change the meaning of these rules)
             end_to_end(ctx, mon, type_name, empty, length, rule, dec, ths, cells, flags)
